@@ -140,7 +140,8 @@ MANIFEST = {
     'engine': 'E1',
     'technique': 'relational bounded model checking (cbmc) of C generated from the clang IR of Geoid::height, pixel access as an uninterpreted function; inductive two-query argument for the history quantifier',
     'text': 'Bounded solver verdict on the real code of Geoid::height: for an arbitrary raster geometry, interpolation mode and any two positions, the second height is bit-identical whether or not the first query was made '
-            '(i.e. independent of the single-cell cache state any history can leave) and equals the thread-safe evaluation; NaN positions give NaN; cell-index conversions are in range.',
+            '(i.e. independent of the single-cell cache state any history can leave) and equals the thread-safe evaluation; NaN positions give NaN; cell-index conversions are in range. Geoid::CacheArea (4x3 raster, file as environment): no out-of-range conversion for any doubles, only GeographicErr, '
+            'every cached cell holds the raster cell it stands for (wrap at longitude 0, reflection beyond the poles, cubic margins).',
     'note': 'FP arithmetic abstracted by congruence (mode U); rawval opaque. Geoid::CacheArea is decided on a 4x3 raster with the file as an environment (Q4); CacheAll, re-caching over an existing cache, the PGM header parser and the interpolation formulas themselves are not covered. '
             'Trusted: clang-14, vfw/cgen, cbmc 6.11, the stated induction argument.',
 }
